@@ -1,6 +1,49 @@
 package backend
 
+import (
+	"context"
+
+	"github.com/ProtonMail/gluon/imap"
+	"github.com/ProtonMail/gluon/limits"
+	"github.com/sirupsen/logrus"
+)
+
 // VerifNewBackend returns a Backend that only knows its hierarchy delimiter (for session-level harnesses).
 func VerifNewBackend(delim string) *Backend {
 	return &Backend{delim: delim}
+}
+
+type verifCredConn struct {
+	verifConnBase
+	name, pass string
+}
+
+func (c *verifCredConn) Authorize(ctx context.Context, username string, password []byte) bool {
+	return username == c.name && string(password) == c.pass
+}
+
+func (c *verifCredConn) GetMailboxVisibility(ctx context.Context, id imap.MailboxID) imap.MailboxVisibility {
+	return imap.Visible
+}
+
+// VerifNewBackendUsers returns a Backend (built by New) with two users, "alice"/"pw1" (user id "id-alice") and
+// "bob"/"pw2" (user id "id-bob"); each has an INBOX holding one message in its own index.
+func VerifNewBackendUsers() *Backend {
+	b, err := New("", "", nil, "/", 3600*1000000000, limits.DefaultLimits(), nil, nil)
+	if err != nil {
+		panic(err)
+	}
+	b.log = logrus.WithField("pkg", "gluon/backend")
+	for _, cr := range [][3]string{{"alice", "pw1", "id-alice"}, {"bob", "pw2", "id-bob"}} {
+		u, d, st := verifUser()
+		u.userID = cr[2]
+		u.connector = &verifCredConn{name: cr[0], pass: cr[1]}
+		box := d.AddBox("INBOX", imap.MailboxID("mb-inbox-"+cr[0]), 2)
+		id := imap.NewInternalMessageID()
+		d.AddMsg(id, imap.MessageID("rm-"+cr[0]))
+		box.AddRow(id, imap.MessageID("rm-"+cr[0]), 1, false, false)
+		st.data[id] = []byte("X-Pm-Gluon-Id: " + id.String() + "\r\n" + verifLit1)
+		b.users[cr[2]] = u
+	}
+	return b
 }
